@@ -69,7 +69,7 @@ fn c02_scn(name: &str, with_password: bool, full: bool) -> ChatScn {
                 Life::Live => {
                     if v.registered(i) {
                         let me = v.nick(i).unwrap().to_string();
-                        for l in [format!("PRIVMSG wit :id{}", i), "JOIN #c".to_string(), "NICK z".to_string(), "NICK x".to_string(), format!("MODE {} +i", me), "CAP END".to_string(), "QUIT".to_string()] {
+                        for l in [format!("PRIVMSG wit :id{}", i), "JOIN #c".to_string(), "NICK z".to_string(), "NICK x".to_string(), format!("MODE {} +i", me), format!("MODE {} +w", me), "CAP END".to_string(), "QUIT".to_string()] {
                             acts.push(Act::Send(i, l));
                         }
                         if full {
@@ -104,6 +104,8 @@ fn c02_scn(name: &str, with_password: bool, full: bool) -> ChatScn {
     s.focus = Focus::all();
     s.state_oracle = Some(Box::new(|_s, _w, v, _g| ownership_bijection(v)));
     s.after_step = Some(Box::new(owner_survives));
+    // what hangs on a nickname (the WALLOPS audience, memberships) follows accepted changes only
+    s.invariants = vec!["wallops-set", "dangling-wallops", "membership-symmetry", "dangling-member"];
     s
 }
 
@@ -228,7 +230,7 @@ fn c03_scn(cfg: Cfg, full: bool) -> C03 {
             }
             Life::Live => {
                 if !v.registered(1) {
-                    for l in ["PASS right", "PASS wrong", "PASS userpw", "NICK n", "USER other 0 * :r", "CAP LS 302", "CAP REQ :sasl", "CAP END", "QUIT"] {
+                    for l in ["PASS right", "PASS wrong", "PASS userpw", "PASS :right ", "PASS : userpw", "NICK n", "USER other 0 * :r", "CAP LS 302", "CAP REQ :sasl", "CAP END", "QUIT"] {
                         acts.push(Act::Send(1, l.to_string()));
                     }
                     acts.push(Act::Send(1, format!("USER {} 0 * :r", uname)));
